@@ -82,7 +82,8 @@ partial def pTmpl : P → Option (Tmpl × P)
     pure (.asciiVar nm mn mx, r)
   | "B" :: r => do
     let (n, r) ← pNat r
-    let (xs, r) ← pSlots (fun t => t.toNat?) n r
+    -- a negative value (refused by the factory) is mapped to an out-of-range natural
+    let (xs, r) ← pSlots (fun t => t.toInt?.map (fun v => if v < 0 then 256 + v.natAbs else v.toNat)) n r
     pure (.binary xs, r)
   | "BO" :: r => do
     let (n, r) ← pNat r
